@@ -286,3 +286,86 @@ def cvx_specs(reps):
         constraint_text=["I (x) I (x) Y >= P Q P^*"]),
         "optimal_clone dual (n = %d): min Tr Y s.t. I (x) I (x) Y >= P Q P^*" % n)
     return out
+
+
+# ---------------------------------------------------------------------------------------------
+# channel metrics: the SDP branch of completely_bounded_trace_norm (picos) and channel_fidelity (cvxpy)
+# ---------------------------------------------------------------------------------------------
+CBTN = "toqito/channel_metrics/completely_bounded_trace_norm.py"
+CF = "toqito/channel_metrics/channel_fidelity.py"
+
+
+def block(a, b, c, d):
+    return uf("block2x2", Arr, a, b, c, d)
+
+
+def neg(a):
+    return uf("neg", Arr, a)
+
+
+def metric_specs():
+    out = {}
+
+    def cbtn_spec(e):
+        n0 = uf("shape[0]", R, e["phi"])
+        dim = uf("round", R, uf("np.sqrt", R, n0))
+        y0, y1 = hvar("y0", n0, n0), hvar("y1", n0, n0)
+
+        def ptr2(y):
+            return uf("var.partial_trace[1](dimensions)", Arr, y, dim)
+
+        return dict(
+            direction="min", objective=uf("spectral-norm", R, ptr2(y0)) + uf("spectral-norm", R, ptr2(y1)), objective_text="||Tr_2 Y0||_inf + ||Tr_2 Y1||_inf",
+            value=lambda opt: opt / 2, value_text="half the optimum", scalar_result=True,
+            constraints=[psd(y0), psd(y1), Cons("psd", block(y0, neg(e["phi"]), neg(dagger(e["phi"])), y1), zero())], ordered=False,
+            constraint_text=["Y0 >= 0", "Y1 >= 0", "[[Y0, -J], [-J^*, Y1]] >= 0"])
+
+    out["cbtn.sdp"] = (CBTN, "completely_bounded_trace_norm", [("phi", "arr"), ("solver", "solver"), ("kwargs", "kwargs")],
+                       [lambda e: uf("shape[0]", R, e["phi"]) == uf("shape[1]", R, e["phi"]), "not is_quantum_channel(phi)", lambda e: z3.Not(tq("is_completely_positive", z3.BoolSort(), phi=e["phi"]))], cbtn_spec,
+                       "completely_bounded_trace_norm (neither a channel nor completely positive): (1/2) min ||Tr_2 Y0|| + ||Tr_2 Y1|| s.t. Y0, Y1 >= 0, [[Y0, -J], [-J^*, Y1]] >= 0 (Watrous)")
+
+    def cf_spec(e):
+        n0 = uf("shape[0]", R, e["choi_1"])
+        dim = uf("np.round", R, uf("np.sqrt", R, n0))
+        lam = cvar(0, "nonneg=True")
+        q = cvar(1, "complex=True", n0, n0)
+        qm = tq("partial_trace", Arr, consts=["sys=[1]"], input_mat=q, dim=[dim, dim])
+        lam_s = lam
+        return dict(
+            direction="max", objective=uf("scalar-of", R, lam), objective_text="lambda", scalar_result=True, solver_param=False,
+            solve_kw={"solver": ("modattr", "cvxpy", "SCS"), "eps": e["eps"]},
+            constraints=[Cons("psd", block(e["choi_1"], uf("dagger", Arr, q), q, e["choi_2"]), zero()),
+                         Cons("psd", msub(uf("div", Arr, madd(qm, uf("dagger", Arr, qm)), lift(2)), uf("mul", Arr, lam_s, uf("np.identity", Arr, dim))), zero())], ordered=False,
+            constraint_text=["[[J1, Q^*], [Q, J2]] >= 0", "(Tr_2 Q + (Tr_2 Q)^*) / 2 >= lambda I"])
+
+    out["cf.sdp"] = (CF, "channel_fidelity", [("choi_1", "arr"), ("choi_2", "arr"), ("eps", "real")],
+                     ["not choi_1.shape != choi_2.shape", lambda e: uf("shape[0]", R, e["choi_1"]) == uf("shape[1]", R, e["choi_1"])], cf_spec,
+                     "channel_fidelity: max lambda s.t. [[J1, Q^*], [Q, J2]] >= 0, (Tr_2 Q + (Tr_2 Q)^*) / 2 >= lambda I, solved with SCS at the caller's eps")
+    return out
+
+
+# ---------------------------------------------------------------------------------------------
+# XORGame.quantum_value (cvxpy): the dual Tsirelson program, question counts enumerated
+# ---------------------------------------------------------------------------------------------
+XG = "toqito/nonlocal_games/xor_game.py"
+
+
+def xor_specs(X, Y, reps):
+    from vt.pyvc.progvc import EntryMat
+
+    P = [[z3.Real("P_%d_%d" % (x, y)) for y in range(Y)] for x in range(X)]
+    F = [[z3.Real("F_%d_%d" % (x, y)) for y in range(Y)] for x in range(X)]
+    params = [("self.prob_mat", EntryMat(P)), ("self.pred_mat", EntryMat(F)), ("self.reps", reps)]
+
+    def spec(e):
+        D = [[P[x][y] * uf("pow", R, lift(-1), F[x][y]) for y in range(Y)] for x in range(X)]
+        mD = EntryMat(D).map(lambda t: -t)
+        u, v = cvar(0, "complex=False", X), cvar(1, "complex=False", Y)
+        return dict(
+            direction="min", objective=uf("sum-of-entries", R, u) + uf("sum-of-entries", R, v), objective_text="sum(u) + sum(v)", scalar_result=True, solver_param=False,
+            value=(lambda opt: opt / 4 + lift(1) / 2) if reps == 1 else (lambda opt: (opt / 4 + lift(1) / 2) * (opt / 4 + lift(1) / 2) if reps == 2 else None), value_text="(1/2 + optimum / 4) ** reps",
+            constraints=[Cons("psd", block(uf("diag", Arr, u), mD.term(), mD.transpose().term(), uf("diag", Arr, v)), zero())], ordered=True,
+            constraint_text=["[[Diag(u), -D], [-D^T, Diag(v)]] >= 0 with D[x,y] = pi(x,y) (-1)^f(x,y)"])
+
+    return {"xor.quantum_value": (XG, "XORGame.quantum_value", params, [], spec,
+            "XORGame.quantum_value (%d x %d questions, reps = %d): (1/2 + opt/4)^reps with opt = min sum(u) + sum(v) s.t. [[Diag(u), -D], [-D^T, Diag(v)]] >= 0, D = pi * (-1)^f" % (X, Y, reps))}
